@@ -86,6 +86,22 @@ fn install_sink() {
                 };
                 ev!("e": "hk", "name": e.name, "k": k, "k2": k2, "a0": a0, "a1": a1, "a2": e.args[2], "a3": e.args[3], "text": e.text);
             }
+            "dg_edges" => {
+                // the wait-for edges after update_transferred_edges, as pairs of logical thread indices
+                let k = e.key.map(items::raw_key).unwrap_or_default();
+                let k2 = e.key2.map(items::raw_key).unwrap_or_default();
+                let d: Vec<[i64; 2]> = e
+                    .detail
+                    .split(',')
+                    .filter(|s| !s.is_empty())
+                    .filter_map(|s| {
+                        let (a, b) = s.split_once('>')?;
+                        Some([par::logical(a.parse().ok()?), par::logical(b.parse().ok()?)])
+                    })
+                    .collect();
+                ev!("e": "hk", "name": e.name, "k": k, "k2": k2, "a0": par::logical(e.args[0]), "a1": par::logical(e.args[1]),
+                    "a2": 0, "a3": 0, "text": "", "d": d);
+            }
             "writer_proceeds" => {
                 ev!("e": "wproc", "clones": e.args[0]);
             }
